@@ -339,20 +339,21 @@ def steps_oracle(xs, vals, phase_of, lips, scales, what):
     """Lipschitz steps (continuity at and between boundaries) and mean-value brackets inside phases.
     vals[k][i]: k-th quantity (pos, vel, acc, jer) at xs[i]; lips[k]: bound on |quantity k+1|; scales[k]: magnitude of
     quantity k for the tolerance."""
+    tgran = 8 * EPS * max(abs(xs[0]), abs(xs[-1]))      # resolution of the time axis (phase boundaries are rounded sums)
     for k in range(len(vals) - 1):
         for i in range(len(xs) - 1):
             dx = xs[i + 1] - xs[i]
             if not dx > 0:
                 continue
             d = vals[k][i + 1] - vals[k][i]
-            slack = TOL * scales[k] + 8 * EPS * scales[k]
+            slack = TOL * scales[k] + 8 * EPS * scales[k] + lips[k] * tgran
             if abs(d) > lips[k] * dx * (1 + TOL) + slack:
                 return "%s: %s jumps by %.6g between x=%r and x=%r (limit of its derivative %.6g allows %.3g)" % (
                     what, ["pos", "vel", "acc"][k], d, xs[i], xs[i + 1], lips[k], lips[k] * dx)
             if phase_of(xs[i]) == phase_of(xs[i + 1]) and 0 < phase_of(xs[i]) < 99 and dx > 1e-6 * (xs[-1] - xs[0]):
                 lo = min(vals[k + 1][i], vals[k + 1][i + 1])
                 hi = max(vals[k + 1][i], vals[k + 1][i + 1])
-                sl = TOL * scales[k + 1] + 16 * EPS * scales[k] / dx
+                sl = TOL * scales[k + 1] + 16 * EPS * scales[k] / dx + (lips[k + 1] * tgran if k + 1 < len(lips) else 0)
                 if not (lo - sl <= d / dx <= hi + sl):
                     return "%s: slope of %s between x=%r and x=%r is %.9g, outside [%.9g, %.9g] given by %s" % (
                         what, ["pos", "vel", "acc"][k], xs[i], xs[i + 1], d / dx, lo, hi, ["vel", "acc", "jer"][k])
@@ -395,8 +396,8 @@ def trap_oracle(req, ret, c, xs, ev):
     vel = [e[1] for e in ev]
     acc = [e[2] for e in ev]
     for x, p_, v_ in zip(xs, pos, vel):
-        if x == 0 and abs(p_ - cp0) <= TOL * sp and abs(v_ - cv0) <= TOL * sv:
-            pass        # with ta = 0 the C evaluates the next phase's polynomial at its start: equal up to rounding
+        if -st <= x <= 0 and abs(p_ - cp0) <= TOL * sp and abs(v_ - cv0) <= TOL * sv:
+            pass        # ta = 0 up to rounding: the C evaluates the next phase's polynomial at its start, equal up to rounding
         elif x <= 0 and not (p_ == cp0 and v_ == cv0):
             return "trapezoid: query x=%r before the start gives pos %r vel %r, start state is %r %r" % (x, p_, v_, cp0, cv0)
         if x >= t and not (p_ == cp1 and v_ == cv1):
@@ -456,15 +457,15 @@ def bell_oracle(req, ret, c, xs, ev):
     acc = [e[2] for e in ev]
     jer = [e[3] for e in ev]
     for x, p_, v_, a_, j_ in zip(xs, pos, vel, acc, jer):
-        if x == 0 and abs(p_ - cp0) <= TOL * sp and abs(v_ - cv0) <= TOL * VM:
-            pass        # with ta = 0 the C evaluates the next phase's polynomial at its start: equal up to rounding
+        if -st <= x <= 0 and abs(p_ - cp0) <= TOL * sp and abs(v_ - cv0) <= TOL * VM:
+            pass        # ta = 0 up to rounding: the C evaluates the next phase's polynomial at its start, equal up to rounding
         elif x <= 0 and not (p_ == cp0 and v_ == cv0):
             return "bell: query x=%r before the start gives pos %r vel %r, start state is %r %r" % (x, p_, v_, cp0, cv0)
         if x >= t and not (p_ == cp1 and v_ == cv1):
             return "bell: query x=%r after the end (t=%r) gives pos %r vel %r, end state is %r %r" % (x, t, p_, v_, cp1, cv1)
-        if not abs(v_) <= VM * (1 + TOL):
+        if not abs(v_) <= VM * (1 + TOL) + AM * 8 * EPS * t:
             return "bell: |vel(%r)| = %r exceeds vm = %r" % (x, abs(v_), VM)
-        if not abs(a_) <= AM * (1 + TOL):
+        if not abs(a_) <= AM * (1 + TOL) + JM * 8 * EPS * t:        # time resolution: boundaries are rounded sums
             return "bell: |acc(%r)| = %r exceeds am = %r" % (x, abs(a_), AM)
         if not abs(j_) <= JM * (1 + TOL):
             return "bell: |jer(%r)| = %r exceeds jm = %r" % (x, abs(j_), JM)
